@@ -14009,14 +14009,11 @@ template <typename TN_, typename TA_, typename TH_, typename... TS_>
 HFSM2_CONSTEXPR(14)
 bool
 O_<TN_, TA_, TH_, TS_...>::deepForwardEntryGuard(GuardControl& control) noexcept {
-	const ProngCBits requested = orthoRequested(static_cast<const GuardControl&>(control));
-
 	ScopedRegion region{control, REGION_ID, HEAD_ID, REGION_SIZE};
 
-	if (requested)
-		return SubStates::wideForwardEntryGuard(control, requested);
-	else
-		return SubStates::wideForwardEntryGuard(control);
+	// every sub-region is committed by deepChangeToRequested(), whether a request marked its prong or not:
+	// the guards are consulted in all of them
+	return SubStates::wideForwardEntryGuard(control);
 }
 
 template <typename TN_, typename TA_, typename TH_, typename... TS_>
@@ -14184,14 +14181,11 @@ template <typename TN_, typename TA_, typename TH_, typename... TS_>
 HFSM2_CONSTEXPR(14)
 bool
 O_<TN_, TA_, TH_, TS_...>::deepForwardExitGuard(GuardControl& control) noexcept {
-	const ProngCBits requested = orthoRequested(static_cast<const GuardControl&>(control));
-
 	ScopedRegion region{control, REGION_ID, HEAD_ID, REGION_SIZE};
 
-	if (requested)
-		return SubStates::wideForwardExitGuard(control, requested);
-	else
-		return SubStates::wideForwardExitGuard(control);
+	// every sub-region is committed by deepChangeToRequested(), whether a request marked its prong or not:
+	// the guards are consulted in all of them
+	return SubStates::wideForwardExitGuard(control);
 }
 
 template <typename TN_, typename TA_, typename TH_, typename... TS_>
